@@ -368,6 +368,77 @@ func (m *vMonC06) AfterTx(h *vHist, o *vTxObs) {
 	if len(diff) > 0 {
 		m.res.Distinct(fmt.Sprintf("%s|%d|%s", kind, len(diff), strings.Join(vTransitions(pre, post), ",")))
 	}
+	// (4) an action that names one bid / lease leaves the bids and leases of
+	// other parties under the same deployment in their state.  Two things may
+	// legitimately reach them: creating a lease makes the other open bids on
+	// that order lost, and a settlement that exhausts the deployment's escrow
+	// account closes everything beneath the deployment.
+	var named mtypes.BidID
+	isNamed := true
+	switch x := o.Msgs[0].(type) {
+	case *mtypes.MsgCloseBid:
+		named = x.BidID
+	case *mtypes.MsgWithdrawLease:
+		named = mtypes.BidID(x.LeaseID)
+	case *mtypes.MsgCloseLease:
+		named = mtypes.BidID(x.LeaseID)
+	case *mtypes.MsgCreateLease:
+		named = x.BidID
+	default:
+		isNamed = false
+	}
+	if isNamed {
+		did := named.DeploymentID()
+		cascade := false
+		if a, ok := post.Accts[vAcctKey(dtypes.EscrowAccountForDeployment(did))]; ok {
+			if b, had := pre.Accts[vAcctKey(dtypes.EscrowAccountForDeployment(did))]; had && b.State == etypes.AccountOpen && a.State != etypes.AccountOpen {
+				cascade = true
+			}
+		}
+		_, createLease := o.Msgs[0].(*mtypes.MsgCreateLease)
+		others := 0
+		for _, bk := range vSortedKeys(post.Bids) {
+			b := post.Bids[bk]
+			pb, had := pre.Bids[bk]
+			if !had || pb.State == b.State || b.BidID.Equals(named) || !b.BidID.DeploymentID().Equals(did) {
+				continue
+			}
+			switch {
+			case cascade:
+				m.res.Count("other_party_records_closed_by_overdraft_cascade", 1)
+			case createLease && b.BidID.OrderID().Equals(named.OrderID()) && pb.State == mtypes.BidOpen && b.State == mtypes.BidLost:
+				m.res.Count("other_bids_lost_by_create_lease", 1)
+			default:
+				others++
+				h.Violation("touches-only-what-it-names", kind+"/bid-of-another-party",
+					fmt.Sprintf("%s naming %s moved bid %s from %s to %s (no overdraft of the deployment's escrow account in this tx)", kind, vBidKey(named), bk, pb.State, b.State))
+			}
+		}
+		for _, lk := range vSortedKeys(post.Leases) {
+			l := post.Leases[lk]
+			pl, had := pre.Leases[lk]
+			if !had || pl.State == l.State || mtypes.BidID(l.LeaseID).Equals(named) || !l.LeaseID.DeploymentID().Equals(did) {
+				continue
+			}
+			if cascade {
+				m.res.Count("other_party_records_closed_by_overdraft_cascade", 1)
+				continue
+			}
+			others++
+			h.Violation("touches-only-what-it-names", kind+"/lease-of-another-party",
+				fmt.Sprintf("%s naming %s moved lease %s from %s to %s (no overdraft of the deployment's escrow account in this tx)", kind, vBidKey(named), lk, pl.State, l.State))
+		}
+		if others == 0 {
+			// non-trivial only when another party has something live under this deployment
+			for _, lk := range vSortedKeys(pre.Leases) {
+				l := pre.Leases[lk]
+				if l.State == mtypes.LeaseActive && l.LeaseID.DeploymentID().Equals(did) && !mtypes.BidID(l.LeaseID).Equals(named) {
+					m.res.Count("named_action_next_to_another_partys_active_lease", 1)
+					break
+				}
+			}
+		}
+	}
 	// collision floor: success on dseq 1 while 12 and 123 of the same owner hold live leases
 	if sc.Kind == "deployment" && sc.DSeq == 1 && len(diff) > 0 {
 		live := map[uint64]bool{}
@@ -429,6 +500,7 @@ func TestVerif_C06(t *testing.T) {
 		}
 	}
 	res.Floor("success_on_dseq1_while_12_and_123_live", 1)
+	res.Floor("named_action_next_to_another_partys_active_lease", 5)
 	res.Floor("forged_signature_total", 1)
 	var tpl []string
 	vRunChainCheck(t, res, vChainOpts{Histories: [2]int{150, 5000}, Templates: 3, RandomSteps: 45, OnlyTemplates: tpl,
